@@ -2,7 +2,7 @@
 connection_established / connection_attempt_timeout / connection_changed / connection_closed and handle_connection_events;
 connection_callbacks.hpp: the ring of max_events entries whose try_push result is ignored)"""
 import itertools
-from vlib.core import Case, standard_check
+from vlib.core import Case, standard_check, compile_harness
 from props.ll_common import LLCheck, connected, connect_ind, ctrl, rnd_hex, session, le
 
 META = dict(
@@ -76,6 +76,32 @@ class C29(LLCheck):
         "handle_connection_events at the end of each of them); the ring's behaviour under real concurrency is C30's",
         "one connection at a time (the link layer has one connection)",
     ]
+
+    GROUP_OPS = 80000      # operations per group of cases (8 harness processes per group; the runner gives a process 120 s)
+
+    def prepare(self, ctx, cases):
+        """LLCheck's groups (one binary per variant), cut into pieces that share the binary through the runner's cache"""
+        out = []
+        cache = ctx.__dict__.setdefault("hcache", {})
+        for key, extra, cs in LLCheck.prepare(self, ctx, cases):
+            pieces, cur, n = [], [], 0
+            for c in cs:
+                cur.append(c)
+                n += len(c.ops) + 1
+                if n >= self.GROUP_OPS:
+                    pieces.append(cur)
+                    cur, n = [], 0
+            if cur or not pieces:
+                pieces.append(cur)
+            if len(pieces) == 1:
+                out.append((key, extra, pieces[0]))
+                continue
+            if key not in cache:
+                cache[key] = compile_harness(ctx, self.harness, key, extra=extra)
+            for i, g in enumerate(pieces):
+                cache["%s#%d" % (key, i)] = cache[key]
+                out.append(("%s#%d" % (key, i), extra, g))
+        return out
 
     def generate(self, ctx):
         rng, mk = ctx.rng, self.mk
